@@ -201,6 +201,13 @@ AmbiguousReport  == \A sl \in BOOLEAN :
                        (WF(c0, sl) /\ ParseN(Assemble(c0, sl)) # c0) =>
                           PrintT(ToJson([amb |-> c0, sl |-> sl, text |-> Assemble(c0, sl), reads |-> ParseN(Assemble(c0, sl))]))
 
-LawInit == a \in {Mk(<<>>, c) : c \in AllTuples} /\ b = NoObj /\ fresh = FALSE
-LawSpec == LawInit /\ [][UNCHANGED vars]_vars
+\* enumeration of the universe in two steps so that TLC's workers share it: initial states fix proto/user/passwd,
+\* one step chooses the other four parts (fresh is used as the phase marker here)
+LawInit == /\ a \in {Mk(<<>>, [AllAbsent EXCEPT !.proto = p, !.user = u, !.passwd = w]) :
+                        p \in OptVals("proto"), u \in OptVals("user"), w \in OptVals("passwd")}
+           /\ b = NoObj /\ fresh = TRUE
+LawNext == /\ fresh /\ fresh' = FALSE /\ b' = b
+           /\ \E h \in OptVals("host"), po \in OptVals("port"), pa \in OptVals("path"), q \in OptVals("query") :
+                 a' = Mk(<<>>, [a.c EXCEPT !.host = h, !.port = po, !.path = pa, !.query = q])
+LawSpec == LawInit /\ [][LawNext]_vars
 ================================================================================
